@@ -38,10 +38,26 @@ def aggregations(c, label_seq):
 
 def observe(c):
     pairs = [[[int(ei[k]) for k in sites_drive.J_COLS], [int(ej[k]) for k in sites_drive.J_COLS]] for ei, ej in c.collective]
+    # coll_jumps is the (start site, destination site) digest of the same pairs, in the same order
+    cj = [[[int(a[0]), int(a[1])], [int(b_[0]), int(b_[1])]] for a, b_ in c.coll_jumps]
+    if cj != [[[p[0][1], p[0][2]], [p[1][1], p[1][2]]] for p in pairs]:
+        raise CollJumpsMismatch(cj, pairs)
     return pairs, int(c.n_solo_jumps), int(c.n_coll_jumps)
 
 
+class CollJumpsMismatch(Exception):
+    pass
+
+
 def run(rep):
+    try:
+        _run(rep)
+    except CollJumpsMismatch as e:
+        rep.evaluations += 1
+        rep.violation({'kind': 'leg-B', 'clause': 'coll_jumps-disagree-with-the-collective-pairs', 'coll_jumps': e.args[0][:6], 'pairs': e.args[1][:6]})
+
+
+def _run(rep):
     quick = rep.tier == 'quick'
     core.gemdat_src_first()
     from gemdat.collective import Collective
@@ -232,6 +248,32 @@ def run(rep):
                      'labels': labs, 'spm': spm, 'multi': multi, 'meta': f'{fam} pbc={pbc} cut={cut:.4f} forced={forced}'})
         n_pbc += 1
     rep.extra['partially_periodic_cells'] = n_pbc
+    # scale in the number of jumps (beyond any block size): a small table judged by TraceColl, repeated K times with a time shift longer
+    # than its span plus the window, has exactly K times its pairs (no pair across repeats)
+    for n_target in ([1100] if quick else [1100, 2300]):
+        b += 1
+        w = gen.SiteWorld(rng, 'ortho', 'chol', N=32, n_sites=4, radius=0.5, inner_fraction=1.0)
+        small_rows = [[0, 0, 1, 0, 2], [1, 1, 2, 1, 3], [2, 2, 3, 2, 3], [0, 1, 0, 6, 7], [1, 2, 1, 7, 9], [2, 3, 0, 11, 12]]
+        window, period = 2, 40
+        K = -(-n_target // len(small_rows))
+        rows = [[r[0], r[1], r[2], r[3] + k * period, r[4] + k * period] for k in range(K) for r in small_rows]
+        tr = world_tr(w, rng)
+        recs_small = None
+        col_s = Collective(jumps=make_jumps(tr, small_rows), sites=w.structure, lattice=w.lattice, max_steps=window, max_dist=1000.0)
+        pairs_s, nsolo_s, ncoll_s = observe(col_s)
+        recs.append({'b': b, 'jumps': small_rows, 'window': window, 'sites': w.sites_k, 'G': w.G, 'N': 32, 'R': gen.image_range(w.G), 'thr': 2 ** 30,
+                     'pairs': pairs_s, 'nsolo': nsolo_s, 'ncoll': ncoll_s, 'meta': 'period of the many-jumps table'})
+        col_b = Collective(jumps=make_jumps(tr, rows), sites=w.structure, lattice=w.lattice, max_steps=window, max_dist=1000.0)
+        pairs_b, nsolo_b, ncoll_b = observe(col_b)
+        exp_pairs = sorted([[[p[0][0], p[0][1], p[0][2], p[0][3] + k * period, p[0][4] + k * period],
+                             [p[1][0], p[1][1], p[1][2], p[1][3] + k * period, p[1][4] + k * period]] for k in range(K) for p in pairs_s])
+        rep.evaluations += 1
+        rep.nontrivial += 1
+        got_pairs = sorted(sorted(p) for p in pairs_b)
+        if got_pairs != sorted(sorted(p) for p in exp_pairs) or nsolo_b != K * nsolo_s or ncoll_b != K * ncoll_s:
+            rep.violation({'kind': 'scale', 'clause': 'pairs-of-a-repeated-table-are-not-the-repeated-pairs', 'jumps': len(rows), 'pairs_reported': len(pairs_b),
+                           'pairs_expected': len(exp_pairs), 'nsolo': [nsolo_b, K * nsolo_s]})
+        rep.extra['many_jumps'] = len(rows)
     # realised histories through Jumps.collective()
     from pymatgen.core import Structure as _Structure
     for b in range(n_cases, n_cases + (14 if quick else 80)):
